@@ -1336,10 +1336,14 @@ impl DB {
 
                     #[cfg(raindb_verif)]
                     crate::verif::sched_point(self.options.db_path(), "write_after_wal");
+                    #[cfg(raindb_verif)]
+                    crate::verif::set_current_db(Some(self.options.db_path()));
 
                     // Write the changes to the memtable
                     DB::apply_batch_to_memtable(&**self.memtable(), &write_batch);
 
+                    #[cfg(raindb_verif)]
+                    crate::verif::set_current_db(None);
                     #[cfg(raindb_verif)]
                     crate::verif::sched_point(self.options.db_path(), "write_after_mem");
 
@@ -1692,6 +1696,8 @@ impl DB {
             );
             let value = batch_element.get_value().map_or(vec![], |val| val.to_vec());
             memtable.insert(internal_key, value);
+            #[cfg(raindb_verif)]
+            crate::verif::sched_point_current("write_between_inserts");
 
             curr_sequence_num += 1;
         }
